@@ -18,6 +18,10 @@ func init() {
 func sortStrings(s []string) { sort.Strings(s) }
 
 func runC09(c *Ctx) {
+	// the generation ends while an application handler still runs: waiters are released by the START of the teardown
+	c09SlowHandlers(c)
+	// the SECS-I transport: sends parked at the hand-off / mid-block / awaiting a reply when the generation ends
+	c09SECS1(c)
 	sizes := []int{1, 2, 3, 4, 8, 16, 32, 64}
 	for k := 0; k < c.Pick(6, 24); k++ {
 		for _, n := range sizes {
